@@ -530,7 +530,7 @@ pub fn ladder_text(kind: &str, d: usize) -> Option<String> {
             rep("(", d),
             rep(", 3)", d),
             rep("(", d),
-            rep(", c)", d)
+rep(", _)", d)
         ),
         "match-in-match" => format!(
             "fn main() {{ let x = {}1{}; string_println(int32_to_string(x)) }}",
